@@ -105,10 +105,13 @@ _NOTE = ("trusted: Lean kernel; gen_model.py (extractor/translator) and PyInt; t
 
 MANIFEST_TEXT = {
     "C01": {"text": "Theorems: allocate_bytes raises ENOSPC only when fewer than n+1 allocatable clusters lie behind the hint (all tables, all n); directory scan "
-                    "returns exactly the written entries; alias never shadows. The refinement of the primitives to the reference filesystem is decided by "
-                    "differential execution of random programs on the real code (not a theorem).",
+                    "returns exactly the written entries; alias never shadows. Refinement (c01_fs_step, c01_fs_history): in every reachable state of the "
+                    "filesystem-level model Model.Fs (in-memory tree + FAT + hint, operations written after PyFatFS/FatIO call by call) every call answers like "
+                    "the reference filesystem (a set of paths) or stops with out-of-space and changes nothing; after any history the tree is the reference's. "
+                    "Model.Fs is tied to the code by lock-step execution (suite fsmodel: result, whole FAT, hint, every entry, device after every call); "
+                    "file contents, names and fs.base's compound helpers are decided by differential execution against MemoryFS (suite ns), not by a theorem.",
             "note": _NOTE + "Reference = fs.memoryfs.MemoryFS with fs.base's compound helpers; create() on a directory is FileExpected (pinned by the repo's tests).",
-            "technique": "Lean 4 proof (allocator completeness, scan round trip) + differential programs vs reference filesystem"},
+            "technique": "Lean 4 refinement proof (filesystem model -> path-set reference, all histories) + lock-step correspondence of the model with the real code + differential programs vs MemoryFS"},
     "C02": {"text": "Theorems: seek's cursor addresses exactly byte `offset` (end-of-cluster convention included); read (size clipping + chunk loop along the "
                     "chain) returns what a byte buffer returns and moves the position alike, for every cluster size/file size/position/length; clusters of "
                     "different files are disjoint on the device. write/truncate and mode gating decided by differential execution against a byte-buffer reference.",
@@ -120,8 +123,12 @@ MANIFEST_TEXT = {
             "note": _NOTE, "technique": "Lean 4 proof of the representation round trips + remount-after-every-call oracle"},
     "C04": {"text": "Theorem c04_reachable: every reachable state of the FAT machine (allocate/extend/release/truncate = the four ways the code changes its FAT, "
                     "failed steps included) represents pairwise disjoint, well-formed, in-range chains and nothing else; follower reads back the chain; reserved "
-                    "entries untouched; flush/parse identity. Image-level statement decided by the independent checker on real closed images.",
-            "note": _NOTE + "Model.Alloc is tied to allocate_bytes/get_cluster_chain/free_cluster_chain by component correspondence (suite volume).",
+                    "entries untouched; flush/parse identity. Theorem c04_fs_reachable: every reachable state of the filesystem-level model Model.Fs (all histories of "
+                    "create/create(wipe)/makedir/remove/removedir/write/truncate, failed calls included) has a FAT that represents exactly the chains owned by the "
+                    "directory tree (no cross-link: c04_fs_no_crosslink, no leak: c04_fs_no_leak), the follower returns each entry's chain (c04_fs_follow), every "
+                    "directory fits its chain. Image-level statement decided by the independent checker on real closed images.",
+            "note": _NOTE + "Model.Alloc is tied to allocate_bytes/get_cluster_chain/free_cluster_chain by component correspondence (suite volume), Model.Fs to the "
+                    "primitives by lock-step execution (suite fsmodel).",
             "technique": "Lean 4 invariant proof by induction over operation sequences + independent fsck on real images"},
     "C05": {"text": "Theorems for every name of 1..255 units: slot count, ordinals, flag, checksum/cluster/attribute/type fields, NUL+0xFFFF padding, set directly "
                     "before its short entry; translated checksum = specification; alias conform and unique; nothing behind the end mark is read. "
@@ -142,8 +149,10 @@ MANIFEST_TEXT = {
             "note": _NOTE + "mkfs is covered by C14's suite, not here.",
             "technique": "Lean 4 arithmetic proof + access-log classification against the model + guard bands"},
     "C09": {"text": "Theorems: a failed FAT operation leaves table, hint and ownership unchanged and the representation invariant intact after any mix of "
-                    "successes and failures; the translated date encoder raises exactly for years outside 1980..2107. Operation-level no-op/no-wedge decided by "
-                    "failing every allocation point / root-slot count / limit on the real code with follow-up operations.",
+                    "successes and failures; the translated date encoder raises exactly for years outside 1980..2107. Theorem c09_fs_failed_call_changes_nothing: "
+                    "in every reachable state of Model.Fs a call that ends in out-of-space (any allocation point of any primitive, full fixed root) leaves tree, "
+                    "sizes and chains exactly as they were and the invariant intact; the half-done states of _remove/__write/truncate are unreachable. "
+                    "Other failure causes (limits, names, times, read-only) and follow-up operations decided by fault enumeration on the real code.",
             "note": _NOTE + "Compound helpers of fs.base (writebytes, copy, move, makedirs) are judged at the level of the primitive that failed.",
             "technique": "Lean 4 invariant proof (all-or-nothing allocation) + systematic fault enumeration on the real code"},
     "C10": {"text": "Theorem c10_guards (decide on the regenerated site table): every PyFat function containing a device write/truncate site carries the read-only "
